@@ -194,7 +194,7 @@ def e3(cx):
         g = cx.graph(fn['key'])
         label = cx.label(fn)
         found += 1
-        task_calls = [n for n in g.nodes if n['kind'] == 'call' and n['name'] == '<fnptr>']
+        task_calls = [n for n in g.nodes if n['kind'] == 'call' and n['name'] == '<fnptr>' and not n['ctx']]
         if len(task_calls) != 1:
             res.append(Finding(ID, 'E3', label, False, 'expected exactly one call of the task fn pointer, found %d' % len(task_calls), fn['span']))
             continue
@@ -210,7 +210,7 @@ def e3(cx):
                 d, v = sw_value(lab)
                 if v == 0:  # false
                     seen = reachable(g, [m])
-                    rearm = [g.nodes[x] for x in seen if g.nodes[x]['kind'] == 'call' and (g.nodes[x]['name'].endswith('new_timer') or g.nodes[x]['name'] == '<fnptr>')]
+                    rearm = [g.nodes[x] for x in seen if g.nodes[x]['kind'] in ('call', 'enter') and not g.nodes[x]['ctx'] and (g.nodes[x]['name'].endswith('new_timer') or g.nodes[x]['name'] == '<fnptr>')]
                     if rearm:
                         ok = False
                         msg = 'after the task declined (false) the timer is re-armed / the task may run again: %s' % node_desc(g, rearm[0])
